@@ -54,6 +54,7 @@ def check(ck):
     r13_4(ck)
     r13_5(ck)
     r13_6(ck)
+    r13_7(ck)
 
 
 def _tuple_consts(node):
@@ -599,3 +600,39 @@ def r13_6(ck):
                             for r in rets)
     ck.require(ok, 'R13.6', pp, rets[0] if rets else pp.node.name,
                'the (possibly wrapped) object is returned', None)
+
+
+def r13_7(ck):
+    ck.rule('R13.7', 'fetch before apply: in _send_updates and run_steps '
+            'no deferred result is fetched inside the loop that applies '
+            'updates - applying an update can delete (end) a parallel '
+            'process whose own result is still to be fetched in the same '
+            'batch')
+    n = 0
+    for q in ('Engine._send_updates', 'Engine.run_steps'):
+        f = ck.fn(q, 'core.engine')
+        for loop in A.walk_no_nested(f.node):
+            if not isinstance(loop, ast.For):
+                continue
+            appl = [c for c in A.calls_in(loop, 'apply_update')
+                    if A.is_name(A.call_receiver(c), 'self')]
+            if not appl:
+                continue
+            # innermost loop containing the apply call
+            inner = appl[0]
+            while not isinstance(inner, ast.For):
+                inner = inner._parent
+            if inner is not loop:
+                continue
+            n += 1
+            gets = [c for c in A.calls_in(loop, 'get')
+                    if not c.args and not c.keywords]
+            ck.require(not gets, 'R13.7', f, loop,
+                       'the apply loop fetches nothing (results were '
+                       'collected before it)',
+                       'a deferred result is fetched (%s) inside the loop '
+                       'that applies updates: an earlier update of the '
+                       'batch may already have deleted and ended that '
+                       'parallel process, and the fetch raises' % (
+                           A.short(gets[0], 30) if gets else ''), loop)
+    ck.floor('R13.7', n, 2, 'apply loops')
